@@ -648,6 +648,53 @@ def generate(repo=None):
                         '`n_word` of `Fxp.__lshift__` in expand mode (`mb` = the largest `ceil(log2(|code| + 0.5))` over the codes)')
         attempt('lshiftWord', flshift)
 
+    # ------------------------------------------------------------------------------------------ Config setters
+    def fvalid(key):
+        def f():
+            ccls = next((n for n in otree.body if isinstance(n, ast.ClassDef) and n.name == 'Config'), None) if otree is not None else None
+            if ccls is None:
+                raise Untranslatable('class Config not found')
+            setter = None
+            lists = {}
+            for n in ccls.body:
+                if isinstance(n, ast.FunctionDef):
+                    decos = [ast.unparse(d) for d in n.decorator_list]
+                    if n.name == key and ('%s.setter' % key) in decos:
+                        setter = n
+                    if 'property' in decos and len(n.body) == 1 and isinstance(n.body[0], ast.Return) and isinstance(n.body[0].value, ast.List) \
+                            and all(isinstance(e, ast.Constant) and isinstance(e.value, str) for e in n.body[0].value.elts):
+                        lists['self.' + n.name] = [e.value for e in n.body[0].value.elts]
+            if setter is None:
+                raise Untranslatable('setter of %s not found' % key)
+            # shape: if <test>: self._key = val  else: raise ...   with <test> = isinstance(val, str) and val in self._key_list
+            body = [st for st in setter.body if not (isinstance(st, ast.Expr) and isinstance(st.value, ast.Constant))]
+            if len(body) != 1 or not isinstance(body[0], ast.If) or not body[0].orelse or not all(isinstance(x, ast.Raise) for x in body[0].orelse):
+                raise Untranslatable('setter of %s: not `if valid: store else: raise`' % key)
+            st = body[0]
+            if not (len(st.body) == 1 and isinstance(st.body[0], ast.Assign) and isinstance(st.body[0].value, ast.Name) and st.body[0].value.id == setter.args.args[1].arg):
+                raise Untranslatable('setter of %s: the accepted value is not stored as given' % key)
+            conj = st.test.values if isinstance(st.test, ast.BoolOp) and isinstance(st.test.op, ast.And) else [st.test]
+            table = None
+            for c in conj:
+                txt = ast.unparse(c)
+                if txt == 'isinstance(%s, str)' % setter.args.args[1].arg:
+                    continue
+                if isinstance(c, ast.Compare) and len(c.ops) == 1 and isinstance(c.ops[0], ast.In) and isinstance(c.left, ast.Name) \
+                        and c.left.id == setter.args.args[1].arg:
+                    rhs = c.comparators[0]
+                    if isinstance(rhs, ast.List) and all(isinstance(e, ast.Constant) and isinstance(e.value, str) for e in rhs.elts):
+                        table = [e.value for e in rhs.elts]; continue
+                    if ast.unparse(rhs) in lists:
+                        table = lists[ast.unparse(rhs)]; continue
+                raise Untranslatable('setter of %s: condition %s' % (key, txt))
+            if table is None:
+                raise Untranslatable('setter of %s: no table of valid values' % key)
+            return ('/-- the strings `Config.%s` accepts (its setter stores exactly these and raises otherwise) -/\n'
+                    'def valid_%s (s : String) : Bool :=\n  decide (s ∈ [%s])' % (key, key, ', '.join('"%s"' % v for v in table)))
+        attempt('valid_' + key, f)
+    for key in ('rounding', 'overflow'):
+        fvalid(key)
+
     head = ('import FxpVerif.Model.Reduce\n'
             '/-! # GENERATED by harness/srcgen.py from fxpmath/functions.py — do not edit\n'
             'One definition per Python rule, one `let` per Python assignment, in source order.\n'
